@@ -194,11 +194,13 @@ class Evaluator:
                 l, r = self.ev(e["l"], env), self.ev(e["r"], env)
                 if l[0] == "int" and r[0] == "int":
                     return ("bool", {"Lt": l[1] < r[1], "Le": l[1] <= r[1], "Gt": l[1] > r[1], "Ge": l[1] >= r[1]}[op])
+                if "ord" in self.atoms:
+                    return self.atoms["ord"]([op, l, r])
                 raise Unrecognised(f"ordering of {l} and {r}")
-            if op in ("BitAnd", "BitOr", "BitXor", "Add", "Sub", "Shl", "Shr") and "callee" not in e:
+            if op in ("BitAnd", "BitOr", "BitXor", "Add", "Sub", "Mul", "Shl", "Shr") and "callee" not in e:
                 l, r = self.ev(e["l"], env), self.ev(e["r"], env)
                 if l[0] == "int" and r[0] == "int":
-                    f = {"BitAnd": lambda a, b: a & b, "BitOr": lambda a, b: a | b, "BitXor": lambda a, b: a ^ b, "Add": lambda a, b: a + b,
+                    f = {"BitAnd": lambda a, b: a & b, "BitOr": lambda a, b: a | b, "BitXor": lambda a, b: a ^ b, "Add": lambda a, b: a + b, "Mul": lambda a, b: a * b,
                          "Sub": lambda a, b: a - b, "Shl": lambda a, b: a << b, "Shr": lambda a, b: a >> b}[op]
                     return ("int", f(l[1], r[1]))
                 if l[0] == "bool" and r[0] == "bool" and op in ("BitAnd", "BitOr", "BitXor"):
@@ -260,6 +262,9 @@ class Evaluator:
                 return self.atoms["index:" + b_["path"]]([i_])
             if b_.get("k") == "index" and hir.simp(b_["e"]).get("k") == "def" and ("index:" + hir.simp(b_["e"])["path"]) in self.atoms:
                 return self.atoms["index:" + hir.simp(b_["e"])["path"]]([self.ev(b_["i"], env), i_])
+            ps_ = hir.place_str(b_)
+            if ps_ is not None and ("load:" + ps_) in self.atoms:
+                return self.atoms["load:" + ps_]([i_])
             base = None
             if b_.get("k") == "def":
                 base = self._const_value(b_["path"])
@@ -297,22 +302,14 @@ class Evaluator:
             return self.ev(e["e"], env)
         if k in ("assign",):
             l = hir.simp(e["l"])
+            if l.get("k") == "index":
+                ps_ = hir.place_str(hir.simp(l["e"]))
+                if ps_ is not None and ("store:" + ps_) in self.atoms:
+                    i_ = self.ev(l["i"], env)            # Rust evaluates the right-hand side first, both are pure here
+                    self.atoms["store:" + ps_]([i_, self.ev(e["r"], env)])
+                    return ("unit",)
             v = self.ev(e["r"], env)
-            if self._store_field(l, v, env):
-                return ("unit",)
-            key = l["name"] if l.get("k") == "local" else hir.place_str(l)
-            if key is None:
-                raise Unrecognised("assignment to an untracked place")
-            if isinstance(env, Env) and key in env:
-                env.assign(key, v)
-            elif isinstance(env, Env):
-                root = env
-                while root.parent is not None:
-                    root = root.parent
-                dict.__setitem__(root, key, v)
-            else:
-                env[key] = v
-            self.stores.append((key, v))
+            self._store(l, v, env)
             return ("unit",)
         if k == "assignop":
             name = (e.get("resolved") or e.get("callee") or e.get("op"))
@@ -320,12 +317,8 @@ class Evaluator:
                 if key in self.atoms:
                     old = self.ev(e["l"], env)
                     new = self.atoms[key]([old, self.ev(e["r"], env)])
-                    l = hir.simp(e["l"])
-                    if self._store_field(l, new, env):
-                        return ("unit",)
-                    if l.get("k") == "local":
-                        env.assign(l["name"], new) if isinstance(env, Env) else env.__setitem__(l["name"], new)
-                        return ("unit",)
+                    self._store(hir.simp(e["l"]), new, env)
+                    return ("unit",)
             raise Unrecognised(f"compound assignment {e.get('op')}")
         if k == "call":
             return self.call(e, env)
@@ -409,6 +402,23 @@ class Evaluator:
         if a[0] == "some" and b[0] == "some":
             return self._values_equal(a[1], b[1])
         return False
+
+    def _store(self, l, v, env):
+        if self._store_field(l, v, env):
+            return
+        key = l["name"] if l.get("k") == "local" else hir.place_str(l)
+        if key is None:
+            raise Unrecognised("assignment to an untracked place")
+        if isinstance(env, Env) and key in env:
+            env.assign(key, v)
+        elif isinstance(env, Env):
+            root = env
+            while root.parent is not None:
+                root = root.parent
+            dict.__setitem__(root, key, v)
+        else:
+            env[key] = v
+        self.stores.append((key, v))
 
     def _store_field(self, l, v, env):
         """`base.f = v` where base is a local holding a record value: functional update of the record."""
